@@ -753,7 +753,8 @@ def op_close(op, x, q, n, mag, lowprec, kb):
     if code in ("A", "D", "E", "R"):          # pinv pipeline: relative to max|R| <~ n * mag
         return abs(x - q) <= tol * n * mag
     if code == "C":                            # (N-1) / sum of ER
-        return x > 0 and abs((n - 1) / x - (n - 1) / q) <= tol * n * n * mag
+        # q == 0 (a model whose sum of ER degenerates: 1/0 = 0 in Lean) is a mismatch, not an error
+        return x > 0 and q != 0 and abs((n - 1) / x - (n - 1) / q) <= tol * n * n * mag
     if code in ("V", "B"):                     # float32 copies inside the C sums
         return abs(x - q) <= kb
     if code in ("M", "P"):
@@ -927,10 +928,17 @@ def run(ctx):
     for _ in range(90 if quick else 900):
         c = rng.choice(pool)
         hcases.append((c, gen_history(c, rng, rng.randrange(2, 9 if quick else 14))))
-    hreqs = [" ".join((["histd", str(c.n), enc_mat(c.res)] if c.adj_from_res
-                       else ["hist", str(c.n), enc_adj(c.A), enc_mat(c.res)])
+    # every second history is answered by the machine whose `__init__` / update methods / matrix
+    # getters are the bodies regenerated from the current source (requests `histp` / `histpd`,
+    # `pyRun`; proved equal to `run`: `pyRun_matches_model`) — the regenerated code itself is
+    # compared with the real object, call by call
+    P = "p" if bodies_translated() else ""   # stubs in the generated file: the tie is reported
+    hreqs = [" ".join(([("hist" + P + "d" if k % 2 else "histd"), str(c.n), enc_mat(c.res)] if c.adj_from_res
+                       else [("hist" + P if k % 2 else "hist"), str(c.n), enc_adj(c.A), enc_mat(c.res)])
                       + [enc_op(op) for op in ops])
-             for c, ops in hcases]
+             for k, (c, ops) in enumerate(hcases)]
+    for r in hreqs:
+        ctx.count("history-machine:" + r.split(" ", 1)[0])
     hans = pdriver(ctx.pid, hreqs)
     hbad = []
     nsteps = 0
@@ -990,6 +998,19 @@ def run(ctx):
     stress_stream(ctx, RN, rng, 12 if quick else 120)
 
 
+def bodies_translated():
+    """did translate/gen_C18.py translate every method body (no stub in Generated/StructC18.lean)?
+    If not, the broken tie is reported by the proof obligations and the histories are answered by
+    the hand-written machine only (the stubs would answer nonsense)."""
+    import os
+    path = os.path.join(os.path.dirname(os.path.abspath(__file__)), "..", "lean", "Pyunicorn",
+                        "Generated", "StructC18.lean")
+    try:
+        return "def pyBodiesTranslated : Bool := true" in open(path).read()
+    except OSError:
+        return False
+
+
 def reassign_stream(ctx, RN, rng, pool, count):
     """histories `queries; net.adjacency = A2 (any size); update_resistances(R2); queries`.
     Lean: `reassign_then_update_fresh` — after the two calls the object answers as
@@ -1007,8 +1028,10 @@ def reassign_stream(ctx, RN, rng, pool, count):
             ops2 += [("V", c2.n - 1), ("E", 0, c2.n - 1), ("G", c2.n - 1), ("L", c2.n - 1),
                      ("B", c2.n - 1, c2.n - 2)]
         todo.append((c1, ops1, c2, ops2))
-    reqs = [" ".join(["hist", str(c2.n), enc_adj(c2.A), enc_mat(c2.res)] + [enc_op(op) for op in ops2])
-            for c1, ops1, c2, ops2 in todo]
+    P = "p" if bodies_translated() else ""
+    reqs = [" ".join([("hist" + P if k % 2 else "hist"), str(c2.n), enc_adj(c2.A), enc_mat(c2.res)]
+                     + [enc_op(op) for op in ops2])
+            for k, (c1, ops1, c2, ops2) in enumerate(todo)]
     answers = pdriver(ctx.pid, reqs)
     rbad = []
     nsteps = 0
